@@ -23,6 +23,16 @@ histories on one object
   its real maps between records and re-projects receiver and operand after every call.
   An exception or unreadable object coming out of the implementation is a VIOLATION, never a
   machinery failure.
+users of the maps (specs/IndelMapUse.tla, harness/use_C08.py)
+  CIGAR (parse/cigar.py: map_to_cigar, cigar_to_map, aligned_from_cigar, slice_cigar by alignment /
+  by sequence coordinates, CigarParser full and sliced) as run-length text of the gapped string,
+  and Aligned (IndelMap + sequence view: str, len, gap_vector, with_termini_unknown, slicing, rc
+  and their compositions, feature-map indexing, json round trips of maps with lost / unknown-
+  terminus spans) on every gapped string up to UseLen, compared residue by residue.
+robustness
+  every replayed case runs under a wall-clock limit, workers under a memory limit, worker tasks
+  under a task limit, and no object claiming an absurd length is ever materialised: all of these
+  end as findings (`:timeout`, `:out-of-memory`, `:worker-task-timeout`, `:result-absurd-length`).
 code -> spec
   trace_C08 records what Aligned / Alignment (the real call sites of the maps) do to
   gapped sequences much longer than the exhaustive bound and lets TLC validate every
@@ -296,28 +306,31 @@ def _indel_job(job):
     return fails, stats, samples
 
 
-CASE_SECONDS = 10  # wall-clock limit of one replayed case (they take < 1 ms)
-TASK_SECONDS = int(os.environ.get("VERIF_C08_TASK_SECONDS", "420"))  # ... of one worker task (chunk)
+# Limit of one replayed case, in CPU seconds of the worker (cases take about 1 ms; CPU time, not
+# wall-clock, so that a heavily loaded machine cannot turn a healthy case into a finding) ...
+CASE_SECONDS = 20
+# ... and wall-clock limit of one worker task (a chunk of cases), which also covers blocked workers
+TASK_SECONDS = int(os.environ.get("VERIF_C08_TASK_SECONDS", "900"))
 WORKER_MEM = 6 << 30
 
 
 def _on_alarm(signum, frame):
-    raise M.CaseTimeout(f"case exceeded {CASE_SECONDS}s")
+    raise M.CaseTimeout(f"case used more than {CASE_SECONDS}s of CPU")
 
 
 class time_limit:
     """with time_limit(): one case; raises CaseTimeout inside the worker when it takes too long."""
 
     def __enter__(self):
-        signal.setitimer(signal.ITIMER_REAL, CASE_SECONDS)
+        signal.setitimer(signal.ITIMER_PROF, CASE_SECONDS)
 
     def __exit__(self, *exc):
-        signal.setitimer(signal.ITIMER_REAL, 0)
+        signal.setitimer(signal.ITIMER_PROF, 0)
         return False
 
 
 def _worker_limits():
-    signal.signal(signal.SIGALRM, _on_alarm)
+    signal.signal(signal.SIGPROF, _on_alarm)
     try:  # a runaway allocation becomes a MemoryError in that case, not a swapped-out machine
         resource.setrlimit(resource.RLIMIT_AS, (WORKER_MEM, WORKER_MEM))
     except (ValueError, OSError):
@@ -505,7 +518,7 @@ def history_one(gkey, fails, stats, samples):
             act, args = rec["act"], rec["args"]
             style = rnd.randrange(M.IM_STYLES.get(act, 1))
             broken = False
-            signal.setitimer(signal.ITIMER_REAL, CASE_SECONDS)  # a hanging call is a finding of this step
+            signal.setitimer(signal.ITIMER_PROF, CASE_SECONDS)  # a hanging call is a finding of this step
             try:
                 kind_r, r = M.im_call(obj, act, args, build, style)
                 if kind_r == "val":
@@ -520,7 +533,7 @@ def history_one(gkey, fails, stats, samples):
             except Exception as ex:
                 report(f"exception={type(ex).__name__}", rec, {"exception": repr(ex), "traceback": traceback.format_exc()[-1200:]})
                 broken = True
-            signal.setitimer(signal.ITIMER_REAL, 0)
+            signal.setitimer(signal.ITIMER_PROF, 0)
             done.append([act, args])
             df, robs = M.receiver_diff(obj, exp_g)
             if df:
@@ -629,6 +642,12 @@ def fm_execute(mdef, act, args, allowed, fails, stats, samples):
             continue
         if exc is not None:
             outcomes[(ctor, 0)] = (f"exception={type(exc).__name__}", {"exception": repr(exc), "traceback": tb})
+            continue
+        if act == "Coords":
+            got = [[int(a), int(b)] for a, b in r]
+            want = [a["cs"] for a in allowed if a["kind"] == "coords"]
+            if got not in want:
+                outcomes[(ctor, 0)] = ("coords", {"observed": got})
             continue
         try:
             val, outside = M.fm_project(r, act)
@@ -763,7 +782,7 @@ def check(run: Run):
         trace_C08.validate(run, scratch)
         run.note("phase_wall_s", {"indelmap": round(t1 - t0, 1), "featuremap_and_use": round(t2 - t1, 1), "trace": round(time.time() - t2, 1)})
     run.cov["rule"] = (
-        "IndelMap: every gapped string over {gap,residue} of length <= MaxLen x every operation instance TLC enumerates "
+        "IndelMap (+ IndelMapUse: cigar and Aligned calls): every gapped string over {gap,residue} of length <= MaxLen (UseLen) x every operation instance TLC enumerates "
         "(all slice bounds -len..len, all operand strings, all segment lists), each executed with every public constructor "
         "and argument style; FeatureMap: every span list of the bounded family x every operation instance. "
         "distinct_nontrivial = distinct (input, operation, arguments) whose input has a gap and a residue (IndelMap) / "
@@ -779,6 +798,8 @@ def check(run: Run):
         "FeatureMap inputs are valid maps: spans of length >= 1 inside the parent; results are compared position by position (entry sequence), not by how spans are cut",
         "FeatureMap.shadow() of a map that reads a parent position twice may raise ValueError (it is inverse().gaps()); counted as unsupported",
         "FeatureMap.nucleic_reversed(): reverse flags are discarded first, as its docstring states",
+        "CIGAR: cigar lines with two adjacent D runs are outside the domain (one gap is one run); zero-count runs in produced text are ignored",
+        "Aligned: residue k of the ungapped sequence is shown as ACGT[k % 4]; Aligned.remapped_to() is not modelled (it calls IndelMap.inverse(), which does not exist, and always raises AttributeError); an empty alignment row (length 0) is unsupported",
     ]
 
 
